@@ -517,3 +517,63 @@ def return_expr(fi_or_node, inline_locals=False):
     if e is not None:
         ast.fix_missing_locations(e)
     return e
+
+
+def local_defs(fi):
+    """single-definition locals of a function: name -> value AST (tuple assignments split element-wise)"""
+    from .model import walk_no_nested
+    count = {}
+    val = {}
+    for n in walk_no_nested(fi.node):
+        if isinstance(n, ast.Assign) and len(n.targets) == 1:
+            t = n.targets[0]
+            if isinstance(t, ast.Name):
+                count[t.id] = count.get(t.id, 0) + 1
+                val[t.id] = n.value
+            elif isinstance(t, (ast.Tuple, ast.List)):
+                for k, e in enumerate(t.elts):
+                    if isinstance(e, ast.Name):
+                        count[e.id] = count.get(e.id, 0) + 1
+                        if isinstance(n.value, (ast.Tuple, ast.List)) and len(n.value.elts) == len(t.elts):
+                            val[e.id] = n.value.elts[k]
+                        else:
+                            count[e.id] += 1
+        elif isinstance(n, (ast.AugAssign,)) and isinstance(n.target, ast.Name):
+            count[n.target.id] = count.get(n.target.id, 0) + 2
+        elif isinstance(n, (ast.For, ast.comprehension)):
+            for e in ast.walk(n.target):
+                if isinstance(e, ast.Name):
+                    count[e.id] = count.get(e.id, 0) + 2
+    params = set(fi.params)
+    return {k: v for k, v in val.items() if count.get(k) == 1 and k not in params}
+
+
+def resolved(fi, expr, repo=None, depth=6):
+    """`expr` with the function's single-definition locals substituted by their definitions (transitively), and
+    references to the library's double-SHA256 helper spelled `Hash`"""
+    defs = local_defs(fi)
+
+    class T(ast.NodeTransformer):
+        def visit_Name(self, n):
+            if isinstance(n.ctx, ast.Load) and n.id in defs:
+                return ast.parse(ast.unparse(defs[n.id]), mode='eval').body
+            return n
+    e = ast.parse(ast.unparse(expr), mode='eval').body
+    for _ in range(depth):
+        before = ast.unparse(e)
+        e = T().visit(e)
+        e = ast.parse(ast.unparse(e), mode='eval').body
+        if ast.unparse(e) == before:
+            break
+    if repo is not None:
+        from .model import FuncRef
+
+        class H(ast.NodeTransformer):
+            def visit_Call(self, n):
+                self.generic_visit(n)
+                v = repo.fold(n.func, fi.module, cls=fi.cls)
+                if isinstance(v, FuncRef) and v.info.qualname in ('bitcoin.core.serialize.Hash', 'bitcoin.core.serialize.Hash160'):
+                    n.func = ast.Name(id=v.info.name, ctx=ast.Load())
+                return n
+        e = ast.fix_missing_locations(H().visit(e))
+    return e
